@@ -193,16 +193,47 @@ def resolve_real(L, shape, el):
     except (ImportError, SyntaxError, MemoryError):
         raise
     except BaseException as e:  # noqa: BLE001
-        return {"bounds": {"raised": type(e).__name__}, "steps": None}
-    try:
-        ops2, smap = attr.get_step_ops(bmap, src.results[0], in_bytes=True)
-        env = interp(ops2, env)
-        out["steps"] = [[env[smap[(d, k)].results[0]] for k in range(len(t))] for d, t in enumerate(L["ts"])]
-    except (ImportError, SyntaxError, MemoryError):
-        raise
-    except BaseException as e:  # noqa: BLE001
-        out["steps"] = {"raised": type(e).__name__}
+        return {"bounds": {"raised": type(e).__name__}, "steps": None, "steps_el": None}
+    for key, in_bytes in (("steps", True), ("steps_el", False)):
+        try:
+            ops2, smap = attr.get_step_ops(bmap, src.results[0], in_bytes=in_bytes)
+            env2 = interp(ops2, dict(env))
+            out[key] = [[env2[smap[(d, k)].results[0]] for k in range(len(t))] for d, t in enumerate(L["ts"])]
+        except (ImportError, SyntaxError, MemoryError):
+            raise
+        except BaseException as e:  # noqa: BLE001
+            out[key] = {"raised": type(e).__name__}
     return out
+
+
+def chain_steps(L, bounds, seed_pos):
+    """The contiguity convention for dynamic steps, in elements, independent of the code under test:
+    the chain starts at (static step at `seed_pos`) x (its extent); walking the dimensions right to left and
+    the tiles of a dimension from the innermost outwards, every dynamic step is the current chain value,
+    which is then multiplied by that tile's extent. Returns {(dim, depth): step} for the dynamic steps."""
+    d0, k0 = seed_pos
+    cur = L["ts"][d0][k0][0] * bounds[d0][k0]
+    out = {}
+    for d in reversed(range(len(L["ts"]))):
+        for k in reversed(range(len(L["ts"][d]))):
+            if L["ts"][d][k][0] is None:
+                out[(d, k)] = cur
+                cur *= bounds[d][k]
+    return out
+
+
+def injective_on_box(bounds, steps, cap):
+    """True/False: the address function of the (bound, step) pairs is one-to-one on the box; None: box too large."""
+    flat = [(b, s) for bt, st in zip(bounds, steps) for b, s in zip(bt, st)]
+    n = 1
+    for b, _ in flat:
+        n *= b
+    if n > cap:
+        return None
+    vals = [0]
+    for b, s in flat:
+        vals = [v + i * s for v in vals for i in range(b)]
+    return len(set(vals)) == len(vals)
 
 
 def subview_real(L, el, shape, offs, dyn, base):
@@ -341,6 +372,8 @@ class C10(Prop):
         "that reads strides from extract_strided_metadata is not modelled)",
         "largest_common_contiguous_block is covered by C05, not here",
         "expects fixes F06 (offset: ?) and F13 (static subview offsets) applied to $SNAX_REPO",
+        "dynamic steps are judged against the contiguity convention (largest static step x its extent, then right to "
+        "left); a layout without any static step has no convention (finding C10-N1)",
     ]
     rule = ("layouts of rank<=4, tile depth<=3 built in four styles (contiguous chains with gaps, random steps, "
             "dense interleavings, perturbed interleavings), unit bounds, repeated steps, offsets incl. negative and "
@@ -396,7 +429,26 @@ class C10(Prop):
                 k = rng.randint(1, 5)
                 shp.append(inner * k + (rng.randrange(inner) if rng.random() < 0.1 else 0)
                            if t[0][1] is None else inner * (t[0][1] or 1))
-            yield {"kind": "resolve", "layout": L, "shape": shp, "el": rng.choice([1, 4, 8])}
+            yield {"kind": "resolve", "layout": L, "shape": shp, "el": rng.choice([1, 2, 4, 4, 8])}
+        for _ in range(60 if quick else 1200):   # the common dynamic shape: every dimension `[?, tiles…] -> (?, static…)`
+            rank = rng.randint(1, 3)
+            ts = [[[None, None]] + gen_tstride(rng, rng.randint(0, 2), (1, 2, 2, 3, 4, 8), "contig")
+                  for _ in range(rank)]
+            if rng.random() < 0.6:   # make the static part one dense interleaving (the layouts the compiler builds)
+                order = [(d, k) for d, t in enumerate(ts) for k in range(1, len(t))]
+                rng.shuffle(order)
+                cur = 1
+                for d, k in order:
+                    ts[d][k][0] = cur
+                    cur *= ts[d][k][1]
+            shp = []
+            for t in ts:
+                inner = 1
+                for _, b in t[1:]:
+                    inner *= b
+                shp.append(inner * rng.randint(1, 4))
+            yield {"kind": "resolve", "layout": {"ts": ts, "offset": rng.choice([0, 0, 16, None])}, "shape": shp,
+                   "el": rng.choice([1, 2, 4, 8])}
         for _ in range(120 if quick else 2500):
             L = gen_layout(rng, dyn=0.3, zero=0.05, cap=10 ** 9, bounds=(1, 2, 3, 4, 8, 16), min_rank=0)
             text = str(to_tsl(L))
@@ -500,7 +552,8 @@ class C10(Prop):
         if k == "from_strides":
             return [{"fn": "c10.from_strides", "args": {kk: case[kk] for kk in ("strides", "tile_bounds", "offset")}}]
         if k == "resolve":
-            return [{"fn": "c10.resolve", "args": {"layout": case["layout"], "shape": case["shape"], "el": case["el"]}}]
+            return [{"fn": "c10.resolve", "args": {"layout": case["layout"], "shape": case["shape"], "el": e}}
+                    for e in (case["el"], 1)]
         if k == "parse":
             return [{"fn": "c10.parse", "args": {"tokens": lex(case["text"] + ">"), "f6": F6}}]
         if k == "subview":
@@ -514,6 +567,12 @@ class C10(Prop):
             return {"model_error": a["err"]}
         r = a["ok"]
         k = case["kind"]
+        if k == "resolve":
+            b = answers[1]
+            if "err" in b:
+                return {"model_error": b["err"]}
+            r["steps_el"] = b["ok"]["steps"]
+            return r
         if k == "views":
             L = case["layout"]
             if not (is_static(L) and all(b > 0 for t in L["ts"] for _, b in t)):
@@ -648,6 +707,53 @@ class C10(Prop):
                         fail(f"static step ({d},{kk}) evaluates to {ss[d][kk]}, literal is {s}*{case['el']}")
                 if t[0][1] is None and case["shape"][d] % inner == 0 and bs[d][0] * inner != case["shape"][d]:
                     fail(f"dynamic bound of dim {d}: {bs[d][0]}*{inner} != {case['shape'][d]}")
+            if bad:
+                return bad
+            el = case["el"]
+            se = impl_out["steps_el"]
+            if isinstance(se, dict):
+                fail(f"step ops (in elements) raised on a well-formed layout: {se}")
+                return bad
+            txt = f"`{to_tsl(L)}` at shape {case['shape']}, {8 * el}-bit elements"
+            # (a) steps in bytes = element size x steps in elements, for every tile (static and dynamic)
+            for d, t in enumerate(L["ts"]):
+                for kk in range(len(t)):
+                    if ss[d][kk] != el * se[d][kk]:
+                        fail(f"step ({d},{kk}) of {txt} is {ss[d][kk]} bytes but {se[d][kk]} elements "
+                             f"(expected {el}*{se[d][kk]}={el * se[d][kk]})")
+                        return bad
+            dynamic = [(d, kk) for d, t in enumerate(L["ts"]) for kk, (s, _) in enumerate(t) if s is None]
+            static = [(d, kk) for d, t in enumerate(L["ts"]) for kk, (s, _) in enumerate(t) if s is not None]
+            if not dynamic:
+                return bad
+            if not static:
+                # no static step to anchor the chain: the convention is undefined; the code yields 0 everywhere
+                if any(se[d][kk] == 0 for d, kk in dynamic) and all(b > 0 for bt in bs for b in bt):
+                    fail(f"every step of the all-dynamic layout {txt} resolves to 0", "C10-N1")
+                return bad
+            # (b) contiguity convention: dynamic step = largest static step x its extent x the extents of the
+            # dynamic tiles to its right/inside; ties between equal largest steps may be broken either way
+            top = max(L["ts"][d][kk][0] for d, kk in static)
+            cands = [chain_steps(L, bs, pos) for pos in static if L["ts"][pos[0]][pos[1]][0] == top]
+            got = {pos: se[pos[0]][pos[1]] for pos in dynamic}
+            if got not in cands:
+                fail(f"dynamic steps of {txt} are {got} elements, the contiguity convention gives {cands[0]}")
+                return bad
+            if {pos: ss[pos[0]][pos[1]] for pos in dynamic} not in [{p: el * v for p, v in c.items()} for c in cands]:
+                fail(f"dynamic steps of {txt} in bytes are not {el} x the contiguity chain {cands[0]}")
+                return bad
+            # (c) where the static tiles are one-to-one below the chain's seed, the resolved (bound, step) pairs
+            # are one-to-one on the runtime box, in elements and in bytes
+            seed = min(c[min(c, key=lambda p: c[p])] for c in cands)
+            sb = [[bs[d][kk] for kk in range(len(t)) if t[kk][0] is not None] for d, t in enumerate(L["ts"])]
+            st = [[t[kk][0] for kk in range(len(t)) if t[kk][0] is not None] for d, t in enumerate(L["ts"])]
+            span = sum((b - 1) * s_ for bt, stt in zip(sb, st) for b, s_ in zip(bt, stt))
+            if all(b > 0 for bt in bs for b in bt) and span < seed and injective_on_box(sb, st, ENUM_CAP):
+                for unit, steps in (("elements", se), ("bytes", ss)):
+                    if injective_on_box(bs, steps, ENUM_CAP) is False:
+                        fail(f"the resolved bounds {bs} and steps {steps} ({unit}) of {txt} map two indices of the "
+                             f"runtime box to the same address")
+                        break
         elif k == "parse":
             if "raised" in impl_out:
                 return bad
@@ -710,6 +816,18 @@ class C10(Prop):
                 t = case["text"]
                 for i in range(len(t)):
                     yield dict(case, text=t[:i] + t[i + 1:])
+            return
+        if case["kind"] == "resolve":
+            ts = L["ts"]
+            for d in range(len(ts)):
+                if len(ts) > 1:
+                    yield dict(case, layout=dict(L, ts=ts[:d] + ts[d + 1:]), shape=case["shape"][:d] + case["shape"][d + 1:])
+                if len(ts[d]) > 1:
+                    inner = ts[d][-1][1] or 1
+                    yield dict(case, layout=dict(L, ts=ts[:d] + [ts[d][:-1]] + ts[d + 1:]),
+                               shape=case["shape"][:d] + [max(1, case["shape"][d] // inner)] + case["shape"][d + 1:])
+            if L["offset"] != 0:
+                yield dict(case, layout=dict(L, offset=0))
             return
         if case["kind"] != "views":
             return
